@@ -21,8 +21,8 @@ def cases(tier):
     out += [("binary_cat", fv, s) for fv in ("str", "cat", "ord") for s in ("a", "b", None, "zz")]
     out += [("binary_cat_g", "str", s) for s in ("t", "u", None)]
     out += [("binary_cat_declared", "cat", s) for s in ("Aaa", "a", None)]  # 'Aaa' is a declared category that no row has
-    out += [("offset", form, rhs) for form in ("offset(z)", "offset(3)", "offset(2.5)", "offset(2 * z)", "offset(z + x)") for rhs in ("x", "x + f")]
-    out += [("prop_predict", form, None) for form in ("prop(s, n)", "prop(s, 9)", "p(s, n)", "proportion(s, n)")]
+    out += [("offset", form, rhs) for form in ("offset(z)", "offset(3)", "offset(2.5)", "offset(2 * z)", "offset(z + x)", "offset(-3)", "offset(2 * 3)", "offset(kk)", "offset(0)") for rhs in ("x", "x + f")]
+    out += [("prop_predict", form, None) for form in ("prop(s, n)", "prop(s, 9)", "p(s, n)", "proportion(s, n)", "prop(s, 3 * 3)", "prop(s, kk9)")]
     out += [("prop_validate", vals, None) for vals in ("int_ok", "float_int_ok", "noninteger_s", "noninteger_n", "s_gt_n", "s_gt_const", "trials_str")]
     out += [("identity", e, None) for e in ("x", "x * z", "x + 2", "(x - z) * x", "-x")]
     al = [("B(f, 'a')", "binary(f, 'a')"), ("B(x, 2)", "binary(x, 2)"), ("standardize(x)", "scale(x)"), ("T(g, 't')", "C(g, Treatment('t'))"), ("T(g)", "C(g, Treatment)"),
@@ -57,6 +57,7 @@ def harness(env, case):
     sym = env.mode == "sym"
 
     def build(formula, df, **kw):
+        kw.setdefault("extra_namespace", {"kk": 4, "kk9": 9})
         with env.running():
             return design_matrices(formula, df, **kw)
 
@@ -137,14 +138,23 @@ def harness(env, case):
         def value(frame):
             z, x = frame["z"].values, frame["x"].values
             n = len(frame)
-            return {"offset(z)": z, "offset(3)": np.array([3] * n, dtype=object), "offset(2.5)": np.array([2.5] * n, dtype=object), "offset(2 * z)": 2 * z, "offset(z + x)": z + x}[a]
+            const = {"offset(3)": 3, "offset(2.5)": 2.5, "offset(-3)": -3, "offset(2 * 3)": 6, "offset(kk)": 4, "offset(0)": 0}  # kk = 4 in the caller's namespace
+            if a in const:
+                return np.array([const[a]] * n, dtype=object)
+            return {"offset(z)": z, "offset(2 * z)": 2 * z, "offset(z + x)": z + x}[a]
 
         env.prove_equal(np.asarray(dm.common[a]).reshape(-1), value(df), "offset(v) contributes v unchanged (constant broadcast)")
         # prediction: a new frame with fresh symbols
         nd, _ = gen.build_frame(env, gen.used_vars("y ~ z + x + " + b), "str", "reversed", min_rows=4, prefix="new_")
         nd = nd.iloc[:3]
-        with env.running():
-            new = dm.common.evaluate_new_data(nd)
+        try:
+            with env.running():
+                new = dm.common.evaluate_new_data(nd)
+        except symx.PathEnd:
+            raise
+        except Exception as e:
+            env.fail("offset cannot be evaluated on a new frame", {"exc": type(e).__name__, "site": core.repo_site(e), "msg": str(e)[:120]})
+            return
         sl = dm.common.slices[a]
         env.prove_equal(np.asarray(new.design_matrix)[:, sl].reshape(-1), value(nd), "offset is recomputed from the new frame at prediction")
         return
@@ -170,9 +180,15 @@ def harness(env, case):
             if sym:
                 nd["s"] = pd.Series(s2, dtype=object)
                 nd["n"] = pd.Series(t2, dtype=object)
-            with env.running():
-                out = dm.response.evaluate_new_data(nd)
-            want = t2 if "n)" in a else np.array([9] * rows_new, dtype=object)
+            try:
+                with env.running():
+                    out = dm.response.evaluate_new_data(nd)
+            except symx.PathEnd:
+                raise
+            except Exception as e:
+                env.fail("prop cannot be evaluated on a new frame", {"exc": type(e).__name__, "site": core.repo_site(e), "msg": str(e)[:120]})
+                return
+            want = t2 if ", n)" in a else np.array([9] * rows_new, dtype=object)
             env.prove(np.asarray(out).ndim >= 1 and np.asarray(out).shape[0] == rows_new, "prop at prediction: one entry per row of the new frame")
             env.prove_equal(np.asarray(out).reshape(-1), want, "prop reports the trials of the new frame at prediction")
         return
